@@ -1774,6 +1774,27 @@ func ruleVD12(c *Ctx) {
 				}
 			}
 			c.check(bad == "" && nCommit > 0, fn, construct, c.Pos(val.Pos()), fmt.Sprintf("parse ok and %s()==nil dominate the %d committing call(s) after the parse", calleeOf(&val.Call).Name(), nCommit), bad)
+			// ... and a rejected input ends the command in failure: on the validation's non-nil edge no return can
+			// succeed (reporting the error object on stdout and then returning the *writer's* error exits 0)
+			rejected := edgesWhere(e, func(a Atom, holds bool) bool { return a.Kind == "nil" && !holds && strip(a.X) == ssa.Value(val) })
+			okExit := ""
+			for re := range rejected {
+				for b := range reach(re.To(), nil, nil) {
+					for _, in := range b.Instrs {
+						if r, ok := in.(*ssa.Return); ok && !c.definitelyFails(e, r) {
+							// the error returned may be the validation error itself, carried in a variable
+							if rv := returnedValue(r, len(r.Results)-1); strip(rv) == ssa.Value(val) || holdsValue(rv, val) {
+								continue
+							}
+							okExit = c.Pos(r.Pos())
+						}
+					}
+				}
+			}
+			if len(rejected) > 0 {
+				c.check(okExit == "", fn, fmt.Sprintf("rejected-input-fails#%d", i+1), c.Pos(val.Pos()), "once validation has rejected the input every return reports a failure",
+					"after validation rejected the input the command can still return without an error (at "+okExit+"): a rejected request exits 0 - the caller is told nothing went wrong")
+			}
 		}
 	}
 }
